@@ -206,3 +206,14 @@ pub proof fn lemma_canon_item(s: Seq<u8>)
     }
 }
 
+
+/// a byte string (shorter than 2^32 bytes) encodes to exactly one string item holding it
+pub proof fn lemma_rlp_str_stored(b: Seq<u8>)
+    requires b.len() < 0x1_0000_0000,
+    ensures
+        one_item(rlp_str(b)),
+        parse_hdr(rlp_str(b)) matches Some(h) && !h.list && item_payload(rlp_str(b), h) == b,
+{
+    lemma_parse_hdr_str(b, Seq::empty());
+    assert(rlp_str(b) + Seq::<u8>::empty() =~= rlp_str(b));
+}
